@@ -432,7 +432,7 @@ fn pipelines(rep: &Reporter, n: usize) {
 
 fn main() {
     let rep = Reporter::from_args("C05");
-    rep.rule("(a) every history up to the stated length over 21 individual-level operations on a pair of individuals (evaluate_with two different functions, set_objective, solution_mut with/without write, clone, clone_from, Vec::clone_from, constructors, as_solutions_mut, into_solutions/into_individuals) compared with a (solution, cached objective) model after every step; (b) after EVERY child of every block (step-observer hook) of runs of all 21 templates over the parameter catalogue and of seeded random operator pipelines (selection x 1-3 variation/boundary/swarm operators x archive x replacement, three encodings), and of the swarm operators that move or re-seed particles (firefly update, black-hole update + event horizon, PSO loop) started from prepared hostile populations (coordinates exactly 0.0/-0.0, subnormal and tiny values, domain bounds, duplicates, randomisation switched off or nearly off): every individual in the population stack and in every memory state (best-so-far, elitist archive, PSO bests, CRO molecule bests, every scope) that reports an objective must carry exactly f_pure(solution), bit for bit. distinct_nontrivial = distinct audited runs + a 1/97 sample of the exhaustive histories");
+    rep.rule("(a) every history up to the stated length over 21 individual-level operations on a pair of individuals (evaluate_with two different functions, set_objective, solution_mut with/without write, clone, clone_from, Vec::clone_from, constructors, as_solutions_mut, into_solutions/into_individuals) compared with a (solution, cached objective) model after every step; (b) after EVERY child of every block (step-observer hook) of runs of all 21 templates over the parameter catalogue and of seeded random operator pipelines (selection x 1-3 variation/boundary/swarm operators x archive x replacement, three encodings), and of the swarm operators that move or re-seed particles (firefly update, black-hole update + event horizon, PSO loop) started from prepared hostile populations (coordinates exactly 0.0/-0.0, subnormal and tiny values, domain bounds, duplicates, randomisation switched off or nearly off): every individual in the population stack and in every memory state (best-so-far, elitist archive, PSO bests, CRO molecule bests, every scope) that reports an objective must carry exactly f_pure(solution), bit for bit. distinct_nontrivial = distinct audited runs + a 1/97 sample of the exhaustive histories; (c) second runs on the state a first run left behind, on a changed problem instance (Configuration::run with a warm-start configuration: evaluate, best-so-far update, generic ga / es / ls / de loop), audited against the second objective function after every component");
     rep.assume("objective functions of the harness problems are pure; Individual::new / set_objective are caller assertions and are only ever given true values");
     let len = rep.tier.pick(5usize, 6usize);
     rep.set("individual_history_length", json!(len));
@@ -457,6 +457,28 @@ fn main() {
     rep.count("template_runs", n as u64);
     pipelines(&rep, rep.tier.pick(10_000, 1_000_000));
     hostile_swarm_states(&rep, rep.tier.pick(4_000, 600_000));
+    // a second run on the state of a first one, on a changed problem instance: whatever the second run
+    // re-creates (best-so-far, populations it re-evaluates) carries values of the second objective only
+    {
+        let mut rng = SplitMix64::new(rep.seed).fork(0xC05_7);
+        for k in 0..rep.tier.pick(400usize, 20_000usize) {
+            let o = mv::warm::warm_restart(&mut rng, k);
+            rep.case();
+            rep.nontrivial(hash_of(&("warm-restart", k)));
+            if o.failed.is_some() {
+                continue; // completion is C16's business
+            }
+            rep.count("hook_events", o.hook_events);
+            rep.count("individuals_audited", o.individuals_audited);
+            rep.count("second_runs_on_a_reused_state", 1);
+            for (comp, loc, msg) in o.stale.iter().take(2) {
+                rep.violation(
+                    &format!("stale:second-run-on-a-reused-state:after-{comp}:{loc}"),
+                    json!({"heuristic": o.variant, "first_objective": format!("{:?}", o.first_fn), "second_objective": format!("{:?}", o.second_fn), "dimension": o.dim, "seed": o.seed, "observed": msg}),
+                );
+            }
+        }
+    }
     if rep.counter("hook_events") == 0 {
         rep.inconclusive("hook never reached");
     }
